@@ -94,9 +94,9 @@ LoopRead ==
   /\ alive /\ rd /\ ~closing /\ (pend > 0 \/ pclosed)
   /\ IF pend > 0
      THEN /\ pend' = 0 /\ UNCHANGED closing
-          /\ Emit(<< [op |-> "onRead", c |-> 1, noread |-> FALSE, r |-> TRUE, b |-> PStream(st[1].pgot, pend)] >>)
+          /\ Emit(<< [op |-> "onRead", c |-> 1, noread |-> FALSE, r |-> TRUE, b |-> PStream(st[1].pgot, pend), peek |-> 1] >>)
      ELSE /\ closing' = TRUE /\ UNCHANGED pend
-          /\ Emit(<< [op |-> "onRead", c |-> 1, noread |-> FALSE, r |-> FALSE, b |-> <<>>] >>)
+          /\ Emit(<< [op |-> "onRead", c |-> 1, noread |-> FALSE, r |-> FALSE, b |-> <<>>, peek |-> 0] >>)
   /\ UNCHANGED <<sb, susp, rd, wr, alive, pclosed>>
 PeerRead(k) == /\ alive /\ st[1].got + k <= Wire /\ k > 0
                /\ Emit(<< [op |-> "pread", c |-> 1, b |-> Stream(st[1].got, k)] >>)
